@@ -20,7 +20,11 @@ def run(ck):
     for i, nthreads in enumerate([1, 2, 3, 4, 8, 16, 32, 64, 64, 128, 16, 8] if thorough else [1, 4, 16, 64]):
         jobs.append({"id": i + 1, "tree": TREE, "op": {"k": "capi_errors", "threads": nthreads,
                                                         "per_thread": 600 if thorough else 60, "seed": rng.randrange(1 << 30)}})
-    stats = {"ids": 0, "history_ops": 0, "model_ok": 0}
+    # one run with very many errors outstanding at once (ids are drawn from ~2^31 values: a store that does not look at the
+    # outstanding ones repeats about n^2/2^32 of them)
+    jobs.append({"id": len(jobs) + 1, "tree": TREE, "op": {"k": "capi_errors", "threads": 2, "per_thread": 20, "seed": rng.randrange(1 << 30),
+                                                        "flood": (1 << 21) if thorough else (1 << 18)}})
+    stats = {"ids": 0, "history_ops": 0, "model_ok": 0, "flood_outstanding": 0}
     samples = []
     cases = []
     for deny in ((), ("openat2",)):
@@ -32,6 +36,7 @@ def run(ck):
                 ck.violation("C16: the error stress run did not complete", {"deny": tag, "res": r}, False)
                 continue
             stats["ids"] += r["n_ids"]
+            stats["flood_outstanding"] = max(stats["flood_outstanding"], r.get("flood", {}).get("n", 0))
             for v in r["violations"][:3]:
                 ck.violation("C16: " + v["what"], {"deny": tag, "threads": jobs[jid - 1]["op"]["threads"], "detail": v})
             if r["max_id"] >= -4095:
@@ -76,6 +81,7 @@ def run(ck):
     cov = {
         "evaluations": stats["ids"] + stats["history_ops"],
         "distinct_nontrivial": stats["ids"],
+        "max_errors_outstanding_at_once": stats["flood_outstanding"],
         "rule": "1..64 threads each fail through four C entry points (ENOENT, EINVAL, ENOSYS, ENOENT-in-open) with a unique token per "
                 "failure; all ids are held live, then consumed by OTHER threads concurrently (token, errno, second call NULL); "
                 "plus an interleaved store/take phase whose serialised history is replayed on the Coq table model; "
